@@ -3,6 +3,7 @@
 import gc
 import hashlib
 import json
+import re
 from dataclasses import dataclass, field
 from typing import Any
 
@@ -18,7 +19,23 @@ class Result:
     steps: int = 0  # library operations executed with the oracle evaluated after each of them
 
 
+_HEX32 = re.compile(r"[0-9a-f]{32}")
+
+
+def scrub(x: Any) -> Any:
+    """uuid4 hex ids (trace ids, scope identifiers) are not owned by the harness: never let them
+    into a violation record (replays must reproduce bit-identically)."""
+    if isinstance(x, str):
+        return _HEX32.sub("<id>", x)
+    if isinstance(x, (list, tuple)):
+        return [scrub(e) for e in x]
+    if isinstance(x, dict):
+        return {scrub(k) if isinstance(k, str) else k: scrub(v) for k, v in x.items()}
+    return x
+
+
 def viol(clause: str, witness: str, expected: Any, observed: Any, **extra: Any) -> dict:
+    expected, observed, extra = scrub(expected), scrub(observed), scrub(extra)
     """A violation record.  signature = clause + witness class (used for dedup and for matching
     KNOWN_FINDINGS.txt)."""
     d = {
